@@ -26,7 +26,7 @@ META = dict(
          "test name, an unknown module, a test name valid in argo but configured under qartod, and the same name under argo) x window {absent, both bounds, starting only, ending only, both with 'ending' written first} x region {absent, GeoJSON "
          "geometry, FeatureCollection}; each abstract config is rendered in every layout that can express it (contexts "
          "list / single context / bare stream mapping / bare module mapping) and every carrier (dict, OrderedDict (each loaded twice from the same object), YAML "
-         "text, JSON text, StringIO of both, str and Path to .yaml/.json files, xarray Dataset global attribute with "
+         "text, JSON text, StringIO of both (also with the cursor after the first line / mid-buffer / at the end after write()), str and Path to .yaml/.json files, xarray Dataset global attribute with "
          "YAML/JSON, Dataset per-variable attributes) and loaded by the real Config; Config.calls / .contexts / "
          "Call.config() must equal (also for three-context configs whose first and last context share a window, and for "
          "load histories that rewrite the same file path with another config) the call set computed from the abstract config (one call per known (stream, module, "
@@ -160,7 +160,8 @@ def yaml_text(d, flow=False):
 
 
 def carriers_for(layout, tier):
-    cs = ["dict", "odict", "yaml", "yamlflow", "sio_yamlflow", "xr_global_yamlflow", "json", "sio_yaml", "sio_json", "path_yaml_str", "path_yaml_Path", "path_json_str", "path_json_Path", "xr_global_yaml", "xr_global_json"]
+    cs = ["dict", "odict", "yaml", "yamlflow", "sio_yamlflow", "xr_global_yamlflow", "json", "sio_yaml", "sio_json", "path_yaml_str", "path_yaml_Path", "path_json_str", "path_json_Path", "xr_global_yaml", "xr_global_json",
+          "sio_yaml_peeked", "sio_json_mid", "sio_yaml_written"]
     if layout == "streams":
         cs.append("xr_vars")
     if tier == "thorough":
@@ -200,6 +201,20 @@ def render(d, carrier):
         return io.StringIO(yaml_text(d)), None
     if carrier == "sio_json":
         return io.StringIO(json.dumps(d)), None
+    # the same buffers with the cursor elsewhere than at the start: the configuration is the buffer's text
+    if carrier == "sio_yaml_peeked":
+        b = io.StringIO(yaml_text(d))
+        b.readline()
+        return b, None
+    if carrier == "sio_json_mid":
+        t = json.dumps(d)
+        b = io.StringIO(t)
+        b.seek(len(t) // 2)
+        return b, None
+    if carrier == "sio_yaml_written":
+        b = io.StringIO()
+        b.write(yaml_text(d))
+        return b, None
     if carrier.startswith("path_"):
         _, fmt, kind = carrier.split("_")
         fd, p = tempfile.mkstemp(suffix="." + fmt, dir=tmpdir())
